@@ -17,7 +17,7 @@ UNIVERSE = ["Qa7x", "Qb7x", "Qc7x", "Qd7x"]
 def safe_random_history(rng, n):
     """random_history with exact tracking of has2 across Save/Reload."""
     steps = [{"a": "Init"}]
-    has2, file_has2 = [True], [None]
+    has2, file_has2, raw = [True], [None], [set()]
     for _ in range(n):
         w = rng.randrange(len(has2)) + 1
         k = rng.random()
@@ -25,27 +25,39 @@ def safe_random_history(rng, n):
             sh = rng.choice([1, 1, 2]) if has2[w - 1] else 1
             steps.append({"a": "SetText", "w": w, "sh": sh, "r": 1 if sh == 2 else rng.choice([1, 2]),
                           "s": rng.choice(UNIVERSE)})
+            raw[w - 1].discard(sh)
         elif k < 0.45:
             sh = rng.choice([1, 2]) if has2[w - 1] else 1
             steps.append({"a": "Delete", "w": w, "sh": sh, "r": 1 if sh == 2 else rng.choice([1, 2])})
-        elif k < 0.52:
+            raw[w - 1].discard(sh)
+        elif k < 0.50:
             steps.append({"a": "RemoveRow", "w": w, "r": rng.choice([1, 2])})
-        elif k < 0.57:
+            raw[w - 1].clear()
+        elif k < 0.54:
             if has2[w - 1]:
                 steps.append({"a": "RemoveSheet", "w": w})
                 has2[w - 1] = False
+                raw[w - 1].discard(2)
+        elif k < 0.58:
+            if raw[w - 1]:
+                sh = rng.choice(sorted(raw[w - 1]))
+                steps.append({"a": "ReadSheet", "w": w, "sh": sh})
+                raw[w - 1].discard(sh)
         elif k < 0.67:
             if len(has2) < 8:
                 steps.append({"a": "Clone", "w": w})
                 has2.append(has2[w - 1])
                 file_has2.append(None)
-        elif k < 0.92:
+                raw.append(set(raw[w - 1]))
+        elif k < 0.88:
             steps.append({"a": "Save", "w": w, "light": rng.random() < 0.3})
             file_has2[w - 1] = has2[w - 1]
         elif file_has2[w - 1] is not None and len(has2) < 8:
-            steps.append({"a": "Reload", "w": w})
+            lazy = rng.random() < 0.6
+            steps.append({"a": "Reload", "w": w, "lazy": lazy})
             has2.append(file_has2[w - 1])
             file_has2.append(None)
+            raw.append(({1, 2} if file_has2[w - 1] else {1}) if lazy else set())
     steps.append({"a": "Save", "w": rng.randrange(len(has2)) + 1})
     return steps
 
@@ -84,6 +96,14 @@ def gen_cases(chk):
                             {"a": "SetText", "w": 1, "sh": 1, "r": 1, "s": "Qb7x"}, {"a": "Save", "w": 1}]})
     cases.append({"steps": [{"a": "Init"}, {"a": "Clone", "w": 1}, {"a": "SetText", "w": 2, "sh": 1, "r": 1, "s": "Qa7x"},
                             {"a": "Save", "w": 2}, {"a": "Save", "w": 1}]})
+    # lazily reopened workbook, one sheet edited while the other stays raw (exercises C12-KF1 and the
+    # carry-over path: double save, clone isolation, strings of earlier saves)
+    base = [{"a": "Init"}, {"a": "SetText", "w": 1, "sh": 1, "r": 1, "s": "Qa7x"}, {"a": "SetText", "w": 1, "sh": 2, "r": 1, "s": "Qb7x"},
+            {"a": "Save", "w": 1}, {"a": "Reload", "w": 1, "lazy": True}]
+    cases.append({"steps": base + [{"a": "SetText", "w": 2, "sh": 1, "r": 1, "s": "Qc7x"}, {"a": "Save", "w": 2}, {"a": "Save", "w": 2},
+                                   {"a": "SetText", "w": 2, "sh": 1, "r": 1, "s": "Qd7x"}, {"a": "Save", "w": 2}]})
+    cases.append({"steps": base + [{"a": "ReadSheet", "w": 2, "sh": 1}, {"a": "Clone", "w": 2}, {"a": "SetText", "w": 3, "sh": 1, "r": 2, "s": "Qd7x"},
+                                   {"a": "Save", "w": 3}, {"a": "Save", "w": 2}, {"a": "Save", "w": 3}]})
     chk.extra["cases"] = {"tlc_paths_depth4_ending_in_save": n1, "random_histories": len(cases) - n1}
     for i, c in enumerate(cases):
         c["case"] = i
